@@ -12,12 +12,12 @@ DESIGN_REF = '4/C04'
 TECHNIQUE = ('explicit-state BFS over histories of runs (state = persisted DONE entries with clock ranks; event = which entries are lost '
              'and which tasks fail in the next run) where every transition is itself an exhaustive preemption-bounded exploration of '
              'the thread interleavings of the real scheduler started from that state')
-RULE = ('graphs: 2-chains (hard, soft), 3-chains (hh, hs, sh), fork and join with mixed edges; run 1 from an empty environment, then up '
+RULE = ('graphs: 2-chains (hard, soft), 3-chains (hh, hs, sh), fork and join with mixed edges, 3-chains whose dependencies are submitted after their dependents, and a 4-task graph with a skippable soft dependency (single changes only); run 1 from an empty environment, then up '
         'to 2 (thorough 3) further runs (single changes only before the last run); between runs every event with <= 2 lost persisted entries and <= 2 failing tasks (a failed task '
         'recovers when it is not chosen again); environments carried the documented way (a fresh Env merging the DONE entries); clock '
         'either strictly increasing or coarse (3 reads per value, so that equal clocks occur); every run explored over all schedules with '
         '(workers, preemption bound) = (1,2),(2,1) on 2-task graphs and (1,1),(2,0) on 3-task graphs (thorough: (1,3),(2,2) and (1,2),(2,0)); the successor states of a history are '
-        'the union over schedules. Oracle at the end of every run: no task is DONE unless each DONE dependency has end <= start(task) and '
+        'the union over schedules. One transition (a DONE task whose soft dependency is skipped while its hard dependency is re-executed) is additionally explored at 2 workers / 2 preemptions. Oracle at the end of every run: no task is DONE unless each DONE dependency has end <= start(task) and '
         'no hard dependency is FAILED or SKIPPED; a task that entered DONE with its whole dependency cone DONE and not re-executed is not '
         'executed and keeps its entry bit for bit; no task runs twice in a run; non-trivial = runs starting from a non-empty state')
 ASSUMPTIONS = ['same trusted base as C01 (controlled scheduler, bounded preemptions)',
@@ -35,12 +35,17 @@ GRAPHS = {
     'chain2h': (2, C.CHAIN2), 'chain2s': (2, C.CHAIN2S),
     'chain3hh': (3, C.CHAIN3), 'chain3hs': (3, C.CHAIN3HS), 'chain3sh': (3, C.CHAIN3SH),
     'fork3hs': (3, C.FORK3HS), 'join3hs': (3, C.JOIN3HS),
+    # dependencies submitted AFTER their dependents (the order of the job's task list is arbitrary)
+    'back3sh': (3, [(0, 1, 's'), (1, 2, 'h')]), 'back3hs': (3, [(0, 1, 'h'), (1, 2, 's')]),
+    # t0 <-h- t1 <-s- t3 -h-> t2: a DONE task (t3) whose soft dependency (t1) is skipped, hence has no clocks, while its
+    # hard dependency (t2) is re-executed
+    'skipclock4': (4, [(1, 0, 'h'), (3, 1, 's'), (3, 2, 'h')]),
 }
 
 
 def events(ntask):
-    """(lost entries, failing tasks) with at most 2 of each."""
-    subs = [()] + [(i,) for i in range(ntask)] + list(itertools.combinations(range(ntask), 2))
+    """(lost entries, failing tasks) with at most 2 of each (at most 1 of each for the 4-task graph)."""
+    subs = [()] + [(i,) for i in range(ntask)] + (list(itertools.combinations(range(ntask), 2)) if ntask < 4 else [])
     return [(lost, fail) for lost in subs for fail in subs]
 
 
@@ -79,10 +84,61 @@ def job(args):
     return rep
 
 
+def _focus_collector(rep, gname, cfg, bound, label):
+    def on_execution(exe):
+        rep.case(nontrivial=True)
+        rep.traces += 1
+        rep.transitions += len(exe.rec)
+        for key, what in rerun.oracle(exe, cfg):
+            case = {'graph': gname, 'config': {k: v for k, v in cfg.items() if k != 'carried'},
+                    'carried': {k: {kk: repr(vv) for kk, vv in v.items()} for k, v in cfg['carried'].items()},
+                    'bound': bound, 'schedule': exe.choices}
+            rep.violate(key, f'{gname} {label}, {cfg["workers"]} worker(s), bound {bound}: {what}', case,
+                        size=exe.preemptions * 1000 + len(exe.rec))
+    return on_execution
+
+
+def job_subtree(args):
+    gname, cfg, bound, prefix, label = args
+    rep = Report()
+    exp = explore.Explorer(lambda rtm: rerun.RerunHarness(cfg, rtm), bound, _focus_collector(rep, gname, cfg, bound, label))
+    exp.stack.clear()
+    exp.stack.append(prefix)
+    exp.run()
+    return rep
+
+
+# (graph, failing tasks of run 1, (lost, failing) of run 2, workers, preemption bound): deeper exploration of one transition
+FOCUS = [
+    # a DONE task whose soft dependency is SKIPPED (no clocks) while its hard dependency is re-executed: needs 2 workers, 2 preemptions
+    ('skipclock4', (0,), ((2,), (0,)), 2, 2),
+]
+
+
+def focus(total, tier, seed):
+    for gname, fail1, (lost, fail2), workers, bound in FOCUS:
+        ntask, edges = GRAPHS[gname]
+        cfg1 = {'n': ntask, 'edges': [list(e) for e in edges], 'outcomes': ['fail' if i in fail1 else 'ok' for i in range(ntask)],
+                'workers': 1, 'version': 1, 'carried': {}, 'clock0': 0.0, 'coarse': 1}
+        exe = explore.run_once(lambda rtm: rerun.RerunHarness(cfg1, rtm), [])
+        _, carried, clock0 = rerun.canon_state(rerun.final_entries(exe.harness), ntask)
+        carried = {k: v for k, v in carried.items() if int(k[1:]) not in lost}
+        cfg2 = {'n': ntask, 'edges': [list(e) for e in edges], 'outcomes': ['fail' if i in fail2 else 'ok' for i in range(ntask)],
+                'workers': workers, 'version': 2, 'carried': carried, 'clock0': clock0, 'coarse': 1}
+        label = f'run 2 (lost {lost}, failing {fail2}) after run 1 (failing {fail1})'
+        rep = Report()
+        exp = explore.Explorer(lambda rtm: rerun.RerunHarness(cfg2, rtm), bound, _focus_collector(rep, gname, cfg2, bound, label))
+        subs = exp.split(96)
+        total.merge(rep)
+        for part in _pmap_keep(job_subtree, [(gname, cfg2, bound, sub, label) for sub in subs], seed):
+            total.merge(part)
+        total.configs.append({'focused transition': label, 'graph': gname, 'workers': workers, 'preemption_bound': bound, 'subtrees': len(subs)})
+
+
 def run(tier, seed):
-    plans = {2: [(1, 2), (2, 1)], 3: [(1, 1), (2, 0)]} if tier == 'quick' else {2: [(1, 3), (2, 2)], 3: [(1, 2), (2, 0)]}
+    plans = {2: [(1, 2), (2, 1)], 3: [(1, 1), (2, 0)], 4: [(1, 1)]} if tier == 'quick' else {2: [(1, 3), (2, 2)], 3: [(1, 2), (2, 0)], 4: [(1, 1), (2, 0)]}
     nruns = 3 if tier == 'quick' else 4
-    graphs = ['chain2h', 'chain2s', 'chain3hh', 'chain3hs', 'join3hs'] if tier == 'quick' else list(GRAPHS)
+    graphs = ['chain2h', 'chain2s', 'chain3hh', 'chain3hs', 'join3hs', 'back3sh', 'skipclock4'] if tier == 'quick' else list(GRAPHS)
     total = Report()
     t_start, budget = time.time(), (900 if tier == 'quick' else 5400)
     for coarse in (1, 3):
@@ -116,6 +172,7 @@ def run(tier, seed):
                 total.merge(rep)
             total.extra[f'states_after_run_{version}_coarse{coarse}'] = sum(len(v) for v in frontier.values())
     total.states += len(graphs)
+    focus(total, tier, seed)
     total.extra['runs_per_history'] = nruns
     total.extra['schedule_plans(workers, preemption bound) per number of tasks'] = {str(k): v for k, v in plans.items()}
     total.sample({'graph': 'chain3hh', 'history': [{'run': 1, 'lost': [], 'failing': []}, {'run': 2, 'lost': [0], 'failing': []}]})
